@@ -118,8 +118,19 @@ func workerMain(args []string) int {
 		started.Store(time.Now().UnixNano())
 		cur.Store(int64(idx))
 		before := core.Evaluations.Load()
+		rchecks := core.RetainedChecks
 		res, herr := runCase(p, c, idx < *samples || fixed != nil)
 		cur.Store(-1)
+		if a := core.TakeAliasViolation(); a != "" && herr == "" && res.Verdict != oracle.Violated {
+			// cross-cutting monitor (core.Run): a result handed out by an earlier call of this process changed during a later call
+			res = oracle.Result{Verdict: oracle.Violated, Sig: p.ID + "/returned-layout-changed-by-later-call", Detail: a, Stats: res.Stats}
+		}
+		if n := core.RetainedChecks - rchecks; n > 0 && herr == "" {
+			if res.Stats == nil {
+				res.Stats = map[string]int{}
+			}
+			res.Stats["retained_results_rechecked"] += n
+		}
 		if herr != "" {
 			j.line("X %d %s", idx, herr)
 			continue
